@@ -181,6 +181,11 @@ def run_case(gen, idx, rng, tier):
     # mix
     from . import c08
     cfg, specs = c08.gen_case(rng, tier)
+    for spec in specs:
+        # application callbacks that raise must not make the library signal twice either (the connection is cut and,
+        # afterwards, closed explicitly)
+        if spec['model'] in ('stream', 'channel') and rng.random() < 0.25:
+            spec['sub_raise_in'] = (rng.choice(['on_error', 'on_error', 'on_next', 'on_complete']),)
     cut = {'at': rng.choice([0.0, 1e-6, 1e-4, 1e-3, 0.01, 0.05, rng.random() * 0.2]),
            'how': rng.choice(['eof', 'error', 'close-c', 'close-s'])}
     if cfg['link'] == 'messages' and cut['how'] == 'eof':
